@@ -258,7 +258,7 @@ def rnd_value(rng, f, depth=0):
     if kind == "bytes":
         if rng.random() < 0.3:
             return S(rnd_str(rng, 6, "aZ09 =+/"))
-        return {"t": "bytes", "y": [rng.choice([0, 1, 10, 65, 127, 128, 255, rng.randint(0, 255)]) for _ in range(rng.randint(0, 9))]}
+        return {"t": "bytes", "y": [rng.choice([0, 1, 10, 65, 127, 128, 255, rng.randint(0, 255)]) for _ in range(rng.choice([rng.randint(0, 9), rng.randint(0, 9), rng.randint(50, 62)]))]}
     if kind == "list":
         item = f["item"]
         n = rng.randint(0, 4)
